@@ -32,7 +32,7 @@ from fractions import Fraction
 from multiprocessing import Pool
 
 from .. import tlc, upj, gen
-from ..common import MachineryError, ImplTimeout, call_limited, time_limit
+from ..common import MachineryError, ImplTimeout, call_limited
 
 ENUM_CFG = "INIT Init\nNEXT Next\n"
 JUDGE_CFG = "SPECIFICATION Spec\nINVARIANT Judge\n"
@@ -414,7 +414,7 @@ def transition(src, cls, obj, problem, must=False, env=None, meta=None):
         except Exception as ex:
             m["kind_exc"] = repr(ex)[:200]
         try:
-            data = call_limited(lambda: ProtobufWriter().convert(obj).SerializeToString(), 20)
+            data = call_limited(lambda: ProtobufWriter().convert(obj).SerializeToString(), 30)
         except ImplTimeout:
             rec["w"] = "raise"
             m["wexc"], m["wsite"], m["wdetail"] = "TIMEOUT", "?", ""
@@ -438,7 +438,7 @@ def transition(src, cls, obj, problem, must=False, env=None, meta=None):
             return ProtobufReader().convert(msg, problem)
 
         try:
-            back = call_limited(read, 20)
+            back = call_limited(read, 30)
             rec["r"] = "ok"
         except ImplTimeout:
             rec["r"] = "raise"
@@ -449,11 +449,10 @@ def transition(src, cls, obj, problem, must=False, env=None, meta=None):
             m["rexc"], m["rsite"], m["rdetail"] = _exc(ex)
             return rec
         try:
-            with time_limit(60):
-                if cls == "cr":
-                    rec["eq"] = bool(obj.problem == back.problem)
-                else:
-                    rec["eq"] = bool(obj == back)
+            if cls == "cr":
+                rec["eq"] = bool(call_limited(lambda: obj.problem == back.problem, 60, 10))
+            else:
+                rec["eq"] = bool(call_limited(lambda: obj == back, 60, 10))
         except ImplTimeout:
             m["eq_exc"] = "TIMEOUT"
         except Exception as ex:
@@ -507,7 +506,7 @@ def job_g1(job):
     env = _fresh_env(fresh)
     try:
         with contextlib.redirect_stdout(io.StringIO()):
-            problem = call_limited(lambda: upj.build(dec(case["P"]), env), 20)
+            problem = call_limited(lambda: upj.build(dec(case["P"]), env), 30)
             apply_x(problem, dec(case["x"]))
             if case["res"]["cls"] != "none":
                 cls, obj = case["res"]["cls"], call_limited(lambda: build_result(problem, case), 60)
@@ -541,7 +540,7 @@ def job_g2(job):
     env = _fresh_env(fresh)
     try:
         with contextlib.redirect_stdout(io.StringIO()):
-            problem = call_limited(lambda: upj.build(P, env), 20)
+            problem = call_limited(lambda: upj.build(P, env), 30)
     except ImplTimeout:
         return [{"unbuildable": "TIMEOUT", "meta": meta}]
     except Exception as ex:
@@ -759,12 +758,30 @@ def account(ctx, recs, stats):
                 stats["str_differs_although_equal"] += 1
 
 
+def warm_up():
+    """per worker process, outside every time limit: create the global environment (its factory imports
+    every engine module) and touch the writer, the reader, the validators and the compilers once"""
+    from .. import compobs
+
+    with contextlib.redirect_stdout(io.StringIO()):
+        import unified_planning.grpc.proto_writer, unified_planning.grpc.proto_reader  # noqa: F401
+        import unified_planning.engines.plan_validator  # noqa: F401
+        from unified_planning.shortcuts import get_environment
+
+        get_environment()
+        for c in COMPS:
+            compobs.get_compiler(c)
+        rng = random.Random(0)
+        job_g2({"kind": "g2", "P": gen.Gen(rng, max_actions=2, max_fluents=2).problem(), "seed": 0, "temporal": False,
+                "flavour": "warm-up", "compiler": "grounder"})
+
+
 def run_jobs(jobs):
     if not jobs:
         return []
     slow = [j for j in jobs if j["kind"] == "ex"]
     fast = [j for j in jobs if j["kind"] != "ex"]
-    with Pool(14, maxtasksperchild=200) as pool:
+    with Pool(14, initializer=warm_up, maxtasksperchild=None) as pool:
         r1 = pool.map_async(worker, slow, chunksize=1)
         r2 = pool.map_async(worker, fast, chunksize=4)
         return r2.get() + r1.get()
